@@ -247,6 +247,9 @@ class C01(Check):
         # the same warp object used before with another target, then re-targeted (anything memoised on the transform
         # - its inverse, its containment cache - must follow the new target)
         out += [("warp_to_shape", "tps-reused", 1), ("warp_to_mask", "tps-reused", 1), ("warp_to_mask", "pwa-reused", 1)]
+        # the same warp object asked, in between, for a template that leaves its domain: the request must be refused,
+        # refused again when repeated, and the object must go on warping correctly afterwards
+        out.append(("warp_to_mask", "pwa-refused", 1))
         return out
 
     def _letters_3d(self, st, reduced):
@@ -269,7 +272,7 @@ class C01(Check):
             return bool(np.all(np.ceil(np.minimum(op[2], S)) - np.floor(np.maximum(op[1], 0)) >= 2))
         if op[0] == "warp_window":
             return bool(np.all(S >= 6))
-        if op[0] == "warp_to_mask" and op[1] in ("pwa", "pwa-reused"):
+        if op[0] == "warp_to_mask" and op[1] in ("pwa", "pwa-reused", "pwa-refused"):
             # every landmark must lie inside the piecewise-affine target domain (inner quadrilateral of the image)
             lms = np.vstack([img.landmarks[g].points for g in img.landmarks])
             return bool(np.all(lms > 0.9) and np.all(lms < S - 1.9) and np.all(lms.max(axis=0) - lms.min(axis=0) > 1.0))
@@ -461,7 +464,8 @@ class C01(Check):
             return unpack(img.warp_to_shape(tpl, t, warp_landmarks=True, **okw, **kw)) + (meta,)
         if k == "warp_to_mask":
             tpl = tuple(int(s) + (0 if i == 0 else 1) for i, s in enumerate(img.shape))
-            t, dom = self._warp_letter(img, op[1], tpl)
+            refused = op[1] == "pwa-refused"
+            t, dom = self._warp_letter(img, "pwa" if refused else op[1], tpl)
             m = np.ones(tpl, dtype=bool)
             m[0, :] = False
             m[:, -1] = False
@@ -475,8 +479,33 @@ class C01(Check):
             meta["template_mask"] = tm.mask.copy() if hasattr(tm, "mask") else tm.pixels[0].copy()
             meta["landmarks_inside_only"] = dom == "domain"
             okw = {} if isinstance(img, BooleanImage) else {"order": op[2]}
+            if refused:
+                self._refused_protocol(img, t, tm, tpl, okw)
             return unpack(img.warp_to_mask(tm, t, warp_landmarks=True, **okw, **kw)) + (meta,)
         raise ValueError(op)
+
+    def _refused_protocol(self, img, t, tm, tpl, okw):
+        """valid warp, then twice the same request whose template leaves the domain of `t` (one row below the template
+        triangulation; as many true pixels as the valid mask).  Deviations are kept in self._side_fails."""
+        from menpo.image import BooleanImage
+        from menpo.transform.piecewiseaffine.base import TriangleContainmentError
+
+        img.warp_to_mask(tm, t, warp_landmarks=True, **okw)
+        bad = np.ones((tpl[0] + 1, tpl[1]), dtype=bool)
+        bad[0, :] = False
+        bad[1, 1] = False
+        bad = BooleanImage(bad)
+        assert bad.n_true() == tm.n_true()
+        for attempt in ("first", "repeated"):
+            try:
+                got = img.warp_to_mask(bad, t, warp_landmarks=True, **okw)
+            except TriangleContainmentError:
+                self.note("refused:%s" % attempt)
+                continue
+            except Exception as e:  # noqa
+                self._side_fails.append(Failure("warp_to_mask-pwa-refused", "refusal-kind-changed", "the %s request outside the domain raised %s: %s instead of TriangleContainmentError" % (attempt, type(e).__name__, str(e)[:120])))
+                continue
+            self._side_fails.append(Failure("warp_to_mask-pwa-refused", "refusal-lost", "the %s request for a template leaving the warp's domain returned a %s of shape %r instead of being refused" % (attempt, type(got).__name__, got.shape)))
 
     # ------------------------------------------------------------------ transitions
     def apply(self, st, op, verify=True):
@@ -484,6 +513,7 @@ class C01(Check):
             return self._apply_pyramid(st, op, verify)
         img = st["img"]
         before = observe(img) if verify else None
+        self._side_fails = []
         res, T, meta = self._call(img, op, True)
         where = op[0] + ("-" + str(op[1]) if op[0] in ("warp_to_shape", "warp_to_mask", "tac") else "")
         cls = type(img).__name__
@@ -493,6 +523,7 @@ class C01(Check):
             d = obs_diff(before, observe(img))
             if d:
                 fails.append(Failure(where, "input-mutated", "%s: %s" % (cls, d)))
+            fails += self._side_fails
             fails += self._oracle(img, res, T, meta, where, op, ramp_source=st["level"] == 0)
             if not fails:
                 res2, _, _ = self._call(img, op, False)
@@ -728,7 +759,7 @@ class C01(Check):
 
     # ------------------------------------------------------------------ reporting
     def vacuity(self, notes, stats):
-        need = ["pixels-compared", "outside-pixels-compared", "outside-mask-compared", "mask-compared", "landmarks-compared", "samples-compared", "pyramid:levels", "gaussian_pyramid:levels", "warp_to_mask:BooleanImage", "warp_to_shape:MaskedImage", "rotate:BooleanImage", "crop_to_true_mask:MaskedImage", "rescale:Image", "reuse:tps-reused", "reuse:pwa-reused"]
+        need = ["pixels-compared", "outside-pixels-compared", "outside-mask-compared", "mask-compared", "landmarks-compared", "samples-compared", "pyramid:levels", "gaussian_pyramid:levels", "warp_to_mask:BooleanImage", "warp_to_shape:MaskedImage", "rotate:BooleanImage", "crop_to_true_mask:MaskedImage", "rescale:Image", "reuse:tps-reused", "reuse:pwa-reused", "refused:first", "refused:repeated"]
         return ["outcome %s never produced" % n for n in need if not notes.get(n)]
 
     def rule(self):
